@@ -31,7 +31,7 @@ MANIFEST = {
     'text': 'For every body length, Content-Length (absent, below, equal, above the data), and buffer size in the '
             'stated ranges, every sequence of answers the input stream may give to the reads issued by the real code '
             'is explored; each complete execution is compared with the exact expected prefix and each read request is '
-            'checked against the remaining Content-Length. Exhaustive within those ranges.',
+            'checked against the remaining Content-Length. Exhaustive within those ranges. Through WSGI the body is also reached through request.copy(), after a one-byte peek, lazily from a returned generator, and not at all.',
     'note': 'Bounds: body length <= 10 (quick) / 14 (thorough), thresholds 1..8 / 1..15; stream never raises. Trusted: '
             'CPython, the frame-local canonicaliser used for merging (cross-checked without merging at <=2 deviations).',
 }
